@@ -41,12 +41,13 @@ def cat():
 
 
 def expand(paths, seed, nvar=2):
-    """One replay item per (path, variant): role alternates, the rest is derived from a hash."""
+    """One replay item per (path, variant): role alternates (nvar=1: role chosen by the hash), the
+    rest is derived from a hash."""
     out = []
     for extra, path in paths:
         h = int(hashlib.sha1(jdump([extra, [s["args"] for s in path], seed]).encode()).hexdigest()[:8], 16)
         for k in range(nvar):
-            v = {"role": ("server", "client")[k % 2], "mode": ("cb", "read")[(h >> 3) & 1], "grid": (h >> 4) % 7 + k,
+            v = {"role": ("server", "client")[(k + (h >> 11 if nvar == 1 else 0)) % 2], "mode": ("cb", "read")[(h >> 3) & 1], "grid": (h >> 4) % 7 + k,
                  "chunk": (h + k) % 4, "seed": h % 100000 + k}
             e = dict(extra)
             e["variant"] = v
@@ -223,18 +224,18 @@ def run(ctx):
                           overrides=ctx.pick({"L": 3}, {"L": 4, "BadOps": "{3, 4, 5, 6, 7, 11, 12, 13, 14, 15}"}))
     ctx._phase("gen", t0)
     t0 = time.time()
-    ctx.replay(expand(paths, ctx.seed), replayer)
+    ctx.replay(expand(paths, ctx.seed, ctx.pick(1, 2)), replayer)
     ctx._phase("s2c", t0)
     ctx.cov["exhaustive"] = True
     # longer seeded TLC walks with every cut kind
     t0 = time.time()
-    sims = ctx.sim_paths("ws", "Gen_WsReceiver", "Gen_WsReceiver.cfg", num=ctx.pick(150, 3000), depth=12,
+    sims = ctx.sim_paths("ws", "Gen_WsReceiver", "Gen_WsReceiver.cfg", num=ctx.pick(80, 3000), depth=12,
                          overrides={"L": 12, "PieceKinds": '{"zero", "one", "half", "rest1"}', "CtlLens": "{0, 5, 125}"})
     ctx.replay(expand(sims, ctx.seed), replayer, label="s2c")
     ctx._phase("s2c-sim", t0)
     # code -> spec: seeded random frame sequences recorded from the real receiver, judged by TLC
     t0 = time.time()
-    n = ctx.pick(300, 5000)
+    n = ctx.pick(150, 5000)
     traces = framework.pool_map(random_trace, [(i + 1, ctx.seed * 1000003 + i) for i in range(n)])
     ctx.validate("ws", "Trace_WsReceiver", "Trace_WsReceiver.cfg", traces, sig_fn=trace_sig,
                  env={"WS_CATALOG": os.environ["WS_CATALOG"]})
@@ -242,8 +243,8 @@ def run(ctx):
     ctx.cov["trusted_base"] += ["harness/ws_driver.py frame plumbing (build_frame / split_frames / xor_mask)",
                                 "zlib as the opaque permessage-deflate codec (catalogue wire lengths)"]
     ctx.cov["rule"] = ("paths: every frame sequence of length <= %d over the catalogue around max_message_size=%d "
-                       "(valid pieces, pings/pongs/close, one violation of each kind), each replayed in the server and the "
-                       "client role under hashed deflate-parameter / segmentation variants; distinct = distinct "
+                       "(valid pieces, pings/pongs/close, one violation of each kind), each replayed in the server or the "
+                       "client role (thorough: both) under hashed deflate-parameter / segmentation variants; distinct = distinct "
                        "(config, variant, frame sequence)" % (ctx.pick(3, 4), LIMIT))
 
 
